@@ -115,6 +115,14 @@ def run(ctx):
                     cl_ok = False
         ctx.check(cl_ok, 'R15.1', 'base:closure', 'the Version field is skipped under the same NEGOTIATE_VERSION test', sh.body.where(),
                   'authenticate_message: the closure that skips the Version field does not test NTLMSSP_NEGOTIATE_VERSION')
+        # ... applied to the same value: the NegotiateFlags field carries the flags parameter itself (the base offset is selected from it)
+        nodes = list(walk(nf.expr)) if nf is not None else []
+        same = any(n == ('param', 7) for n in nodes) and not any(n[0] in ('bin', 'un') for n in nodes) \
+            and not any(n[0] == 'param' and n[1] != 7 for n in nodes)
+        ctx.check(same, 'R15.1', 'base:flags_field', 'the NegotiateFlags field is the flags parameter unchanged (the value that selects the base offset also decides '
+                  'whether Version is written)', sh.body.where(),
+                  'authenticate_message writes a NegotiateFlags value (%s) that differs from the flags it selects the payload base offset with: the Version field '
+                  'and the six BufferOffset fields can disagree by 8 bytes' % (show(strip(nf.expr))[:80] if nf is not None else None))
         prefix = []
         for name, prm in PARTS:
             for suffix in ('Len', 'MaxLen'):
